@@ -76,7 +76,7 @@ class C11(Check):
 
     def budget(self, tier):
         k = 1 if tier == 'quick' else 60
-        return {'single': 260 * k, 'stack2d': 90 * k, 'no_ivar': 40 * k, 'allbad': 20 * k, 'reproduce': 60 * k,
+        return {'single': 260 * k, 'stack2d': 90 * k, 'no_ivar': 40 * k, 'allbad': 20 * k, 'reproduce': 150 * k,
                 'scaling': 80 * k, 'deredshift': 40 * k, 'float32': 40 * k}
 
     # ------------------------------------------------------------------ gen
@@ -105,10 +105,14 @@ class C11(Check):
 
     def _grid(self, rng, ll, dl, kind=None):
         n = ll.size
-        kind = kind or rng.choice(['same', 'shift', 'wider', 'narrower', 'coarser', 'finer', 'disjoint', 'wider', 'touching'])
+        kind = kind or rng.choice(['same', 'same_rounded', 'shift', 'wider', 'narrower', 'coarser', 'finer', 'disjoint', 'wider', 'touching'])
         l0 = float(ll[0])
         if kind == 'same':
             nl = ll.copy()
+        elif kind == 'same_rounded':
+            # the input grid again, but computed another way: equal to it only up to a rounding error per pixel
+            nl = rng.choice([np.linspace(ll[0], ll[-1], n), np.nextafter(ll, -np.inf), np.nextafter(ll, np.inf),
+                             l0 + dl * np.arange(n, dtype='f4').astype('f8'), (ll * 3.0) / 3.0])
         elif kind == 'shift':
             nl = ll + rng.uniform(-1, 1) * dl
         elif kind == 'wider':
@@ -195,6 +199,7 @@ class C11(Check):
                     'unit': rng.choice([1.0, 1.0, 1e-17, 1e5])}
             # output windows whose two ends differ (one end at / beyond the data edge, the other inside good data), and flux given
             # in other dtypes (float32; integer counts for constant spectra)
+            case['jitter'] = rng.choice([0, 1, 2, 3, 4])         # same grid "up to rounding" when the shift is zero
             case['window'] = rng.choice(['same', 'same', 'left', 'right', 'interior'])
             case['wpar'] = [rng.randint(0, 10), rng.uniform(0.35, 0.65)]
             if cls == 'reproduce' and rng.random() < 0.25:
@@ -219,7 +224,7 @@ class C11(Check):
             return case
         if cls == 'deredshift':
             n = rng.randint(300, 600)
-            nobj = rng.randint(1, 3)
+            nobj = rng.randint(1, 4)
             ll = l0 + dl * np.arange(n)
             z = [rng.choice([rng.uniform(0.003, 0.05), rng.uniform(0.05, 0.3)]) for _ in range(nobj)]
             # feature position such that it stays inside the output grid after shifting
@@ -235,6 +240,7 @@ class C11(Check):
                     lo = int(sh) + 30
                 feats.append(rng.uniform(lo, n - 30))
             return {'kind': cls, 'n': n, 'l0': l0, 'dl': dl, 'z': z, 'feat_pix': feats, 'loglam2d': rng.random() < 0.4,
+                    'dead': rng.choice([None, 0, 1, 2, 1, 2]),
                     'method': rng.choice(['mean', 'traditional', 'nothing']), 'noise': rng.choice([0.0, 0.02])}
         raise KeyError(cls)
 
@@ -353,6 +359,8 @@ class C11(Check):
             (lambda L: unit * (case['level'] + case['amp'] * np.sin((L - l0) / dl * 2 * np.pi / case['period'])))
         iv = np.array(case['iv']) / unit ** 2
         nl = ll + case['shift'] * dl
+        if case.get('jitter') and case['shift'] == 0.0:
+            nl = [np.linspace(ll[0], ll[-1], n), np.nextafter(ll, -np.inf), np.nextafter(ll, np.inf), (ll * 3.0) / 3.0][case['jitter'] - 1]
         win = case.get('window', 'same')
         if win != 'same':
             e, frac = case['wpar']
@@ -391,7 +399,12 @@ class C11(Check):
         far = self._far_from_bad(ll, iv, nl, dl)
         amp = max(abs(case['level']), case['amp']) * case.get('unit', 1.0)
         if far.any():
-            if case['const'] and case['level'] == 0.0:
+            if case['const'] and case.get('omit_ivar'):
+                # a constant spectrum without inverse variance has no noise to estimate: the self-estimated variance is zero
+                # or pure rounding noise, and which pixels the fit's rejection then drops is not fixed by the property - only
+                # the flux is (it must stay the constant)
+                out.count('reproduce_constant_without_ivar')
+            elif case['const'] and case['level'] == 0.0:
                 # an identically zero spectrum gives zero spline coefficients, which the code (like the IDL original) cannot tell
                 # from a failed fit and reports with zero inverse variance: allowed by the property (the flux, 0, is still right)
                 out.count('reproduce_zero_spectrum')
@@ -442,6 +455,15 @@ class C11(Check):
         for k, p in enumerate(case['feat_pix']):
             flux[k] = 1.0 + 50.0 * np.exp(-0.5 * ((np.arange(n) - p) / 2.0) ** 2) + case['noise'] * g.normal(size=n)
         ivar = np.full((nobj, n), 4.0)
+        # a dead fibre (no good pixel at all) among the objects, at a position given by the case
+        dead = case.get('dead')
+        if dead is not None and nobj >= 2:
+            dead = dead % nobj
+            ivar[dead] = 0.0
+            out.count('dead_object_among_several')
+            out.count('dead_object_not_first', dead > 0)
+        else:
+            dead = None
         z = np.array(case['z'])
         loglam = np.tile(ll, (nobj, 1)) if case['loglam2d'] else ll
         self.audit.begin()
@@ -454,6 +476,11 @@ class C11(Check):
         out.expect(nf.shape == (nobj, n) and niv.shape == (nobj, n), 'shape', 'preprocess_spectra shapes %s %s' % (nf.shape, niv.shape))
         out.expect(bool(np.all(np.isfinite(nf)) and np.all(np.isfinite(niv)) and np.all(niv >= 0)), 'finite', 'non-finite / negative output')
         for k in range(nobj):
+            if k == dead:
+                out.expect(bool(np.all(niv[k] == 0)), 'must-be-zero',
+                           'object %d has no good input pixel, yet %d output pixels carry inverse variance (max %.3g)'
+                           % (k, int((niv[k] != 0).sum()), float(niv[k].max())))
+                continue
             L = l0 + dl * case['feat_pix'][k]
             target = L - np.log10(1 + z[k])
             peak = nll[int(np.argmax(nf[k]))]
